@@ -38,6 +38,8 @@ func init() {
 		body := strings.Repeat("password", n/8+1)[:max(n-2, 0)]
 		vPasswords = append(vPasswords, body+"unrecognizable", strings.Repeat("a", n)+"Xk9#mQ2$vL7&pR4")
 	}
+	// long AND weak (beyond any "too long to rate" shortcut), long and strong
+	vPasswords = append(vPasswords, strings.Repeat("a", 257), strings.Repeat("a", 300), strings.Repeat("1", 400), strings.Repeat("Xk9#mQ2$vL7&pR4-", 17))
 	vPasswords = append(vPasswords, "  password  ", "PASSWORD", "password\n", " G7$kq!v9Zp#2mL", "G7$KQ!V9ZP#2ML", "\tletmein", "monkey\x00G7$kq!v9Zp#2mL")
 }
 
